@@ -353,6 +353,11 @@ class Model:
             self.frames.append(fills)
             self.fn_depth += 1
             try:
+                if n["use_macro"] not in self.macros:
+                    # (only minimised cases get here: the generator never
+                    # refers to a macro it has not defined)
+                    raise KeyError("Macro does not exist: '%s'."
+                                   % n["use_macro"])
                 self.element(self.macros[n["use_macro"]], None, via_use=True)
             finally:
                 self.fn_depth -= 1
